@@ -181,3 +181,70 @@ def is_internal_helper(F, fn):
         if m['m'] == fn.m:
             return m.get('access') != 0
     return False
+
+
+ROOT_TKEYS = ('ffsm2::detail::R_', 'ffsm2::detail::RV_', 'ffsm2::detail::RP_')
+
+
+def chain_to(F, E, fn, is_target, depth=0):
+    """the call chain from fn down to the call of a function satisfying is_target(g), looking through member functions of the root
+    classes: [(function, CFG, call node)] from fn's own call site to the one whose callee is the target. Every level must have exactly
+    one such call site; returns None when there is none, raises when it is ambiguous."""
+    from . import cfg as cfgmod
+    if depth > 6:
+        return None
+    c = cfgmod.cfg_of(fn)
+    direct, via = [], []
+    for n in c.events(('call',)):
+        g, _ = call_target(F, E, fn, n)
+        if g is None:
+            continue
+        if is_target(g):
+            direct.append(n)
+        elif g.tkey in ROOT_TKEYS and g.id != fn.id and any(is_target(h) for h in E.calls_star(g).values()):
+            via.append((n, g))
+    if len(direct) + len(via) == 0:
+        return None
+    if len(direct) + len(via) > 1:
+        raise AnalysisBroken('%s reaches the anchored call through %d call sites' % (fn.short, len(direct) + len(via)))
+    if direct:
+        return [(fn, c, direct[0])]
+    n, g = via[0]
+    rest = chain_to(F, E, g, is_target, depth + 1)
+    if rest is None:
+        return None
+    return [(fn, c, n)] + rest
+
+
+def flatten_apex_calls(F, E, fn, depth=0):
+    """`_apex.X(...)` call events reached from fn in program order, looking through member functions of the root classes:
+    [(name, node, unconditional, in_loop)] -- `unconditional`/`in_loop` are accumulated along the chain of call sites."""
+    from . import cfg as cfgmod
+    if depth > 8:
+        raise AnalysisBroken('call depth while flattening ' + fn.short)
+    c = cfgmod.cfg_of(fn)
+
+    def is_apex(n):
+        o = n.e.get('obj')
+        o = ir.strip(o) if ir.is_expr(o) else None
+        return o is not None and o['k'] == 'mem' and o['f'] == '_apex'
+
+    def interesting(n):
+        if n.kind != 'call':
+            return False
+        if is_apex(n):
+            return True
+        g, _ = call_target(F, E, fn, n)
+        return g is not None and g.tkey in ROOT_TKEYS and g.id != fn.id
+    evs, _, ordered = ordered_events(c, interesting)
+    out = []
+    for n in evs:
+        uncond = c.postdominates(n, c.entry)
+        loop = c.in_loop(n)
+        if is_apex(n):
+            out.append((n.e.get('m'), n, uncond, loop, ordered))
+        else:
+            g, _ = call_target(F, E, fn, n)
+            for (m, n2, u2, l2, o2) in flatten_apex_calls(F, E, g, depth + 1):
+                out.append((m, n2, uncond and u2, loop or l2, ordered and o2))
+    return out
